@@ -50,6 +50,8 @@ def jobs(tier, seed):
     for t in range(36):
         J.append(Job('C04.text.t%d' % t, 'harness/c_numtext.cpp', '@h_numtext', [t], nproc=2, max_paths=100000, max_steps=20000000,
                      bound='Document::Parse on number-text template #%d (harness/c_numtext.cpp kTmpl), every value of its symbolic digits' % t))
+    J.append(Job('C04.table.kPow10M128Tab', 'harness/c_atof.cpp', '@h_atof', [], engine='ground', bound='rows 10^-348..10^347 of kPow10M128Tab = floor(10^k * 2^(127 - floor(log2 10^k))), read from the IR',
+                 extra=dict(symbol='kPow10M128Tab', k0=-348, kmax=347, formula='floor_lo_hi', what='C04: kPow10M128Tab table')))
     return J
 
 
